@@ -48,4 +48,19 @@ p='extensions/omniv21/transform/invokeCustomFunc.go'; s=open(p).read()
 s=s.replace("} else if len(argValues) != numIn {","} else if len(argValues) < numIn {",1); open(p,'w').write(s)
 PY
 git diff > /verif/selftest/arity_check_too_weak.diff; git checkout -- .; echo "arity_check_too_weak C03 extensions/omniv21/transform/invokeCustomFunc.go" >> /verif/selftest/INDEX
+python3 - <<'PY'
+p='idr/query.go'; s=open(p).read()
+s=s.replace("""	if iter.MoveNext() {
+		return nil, ErrMoreThanExpected
+	}
+	return ret, nil""","""	return ret, nil""",1); open(p,'w').write(s)
+PY
+git diff > /verif/selftest/matchsingle_first_of_many.diff; git checkout -- .; echo "matchsingle_first_of_many C02 idr/query.go" >> /verif/selftest/INDEX
+python3 - <<'PY'
+p='extensions/omniv21/transform/parse.go'; s=open(p).read()
+s=s.replace("""	case err == idr.ErrNoMatch:
+		return nil, nil""","""	case err == idr.ErrNoMatch:
+		return n, nil""",1); open(p,'w').write(s)
+PY
+git diff > /verif/selftest/nomatch_keeps_cursor.diff; git checkout -- .; echo "nomatch_keeps_cursor C02 extensions/omniv21/transform/parse.go" >> /verif/selftest/INDEX
 echo "selftest corpus: $(wc -l < /verif/selftest/INDEX) edits"
